@@ -208,6 +208,9 @@ func init() {
 			for _, s := range indSpecs {
 				mp, dn := s.lim(o)
 				cfgs := s.configs(mp)
+				if s.heavy && dn > 2 {
+					dn = 2
+				}
 				for _, cfg := range cfgs {
 					for d := 2; d <= dn; d++ {
 						for cut := 1; cut <= d && cut <= 2; cut++ {
